@@ -21,7 +21,7 @@ maintainer could commit: an off-by-one, a flipped comparison, a wrong constant i
 normalisation, a changed default, two cooperating edits that each look fine alone) such that
  (a) the library still imports and the existing test suite still passes exactly as before:
      cd {wt} && PYTHONPATH={wt} /venv/bin/python -m pytest -q -p no:cacheprovider --timeout=900 tests 2>&1 | tail -3
-     (before your change: 173 passed, 5 failed — the same 5 must fail and the same 173 pass after it);
+     (run it before your change too: exactly the same tests must pass and the same tests fail after it);
  (b) the property above is violated on some input; and
  (c) the violation needs something SPECIFIC to manifest — an unusual but legal input (a particular mode, octave, negative
      value, rarely used figure or flag, a long/short duration, a part missing from a chord, a note right after a rest…),
@@ -34,7 +34,7 @@ Deliver, in {wt}/SEED/ :
   - patch.diff   : `git -C {wt} diff` of your change to the library (only files under musiclang/; nothing under tests/);
   - demo.py      : a small stand-alone program that exits 0 on the ORIGINAL code and exits 1 (printing what it observed
                    and what the property requires) WITH your change; run it both ways to confirm
-                   (use `git -C {wt} stash` / `git -C {wt} stash pop` to switch);
+                   (switch with `git -C {wt} diff -- musiclang > /tmp/{pid}-{n}.diff; git -C {wt} apply -R /tmp/{pid}-{n}.diff` and `git -C {wt} apply /tmp/{pid}-{n}.diff`; do NOT use git stash, the stash is shared with other worktrees);
   - meta.json    : {{"property": "{pid}", "summary": "<one sentence>", "needs": "<what specific input/sequence makes it manifest>",
                     "files_changed": [...], "tests": "<the pytest tail line with the change applied>"}}.
 Leave the change APPLIED in the worktree when you finish. Reply with the content of meta.json and the patch.""")
